@@ -57,3 +57,22 @@ pub fn is_tame(p: &str) -> bool {
 pub fn tame_canon(p: &str) -> String {
     resolve(p).names.join("/")
 }
+
+/// Directory form: the path as written ends in a separator or in a `.`/`..` component.
+pub fn dir_form(p: &str) -> bool {
+    let last = p.rsplit(is_sep).next().unwrap_or("");
+    p.contains(is_sep) && (last.is_empty() || last == "." || last == "..")
+}
+
+/// Relative, not climbing, at least one name left, written in directory form: canonical spelling is names + "/".
+pub fn is_tame_dir(p: &str) -> bool {
+    let r = resolve(p);
+    r.root.is_none() && r.ups == 0 && !r.names.is_empty() && dir_form(p) && !p.contains('\\')
+}
+
+/// Identity of the graph node a written path denotes (a trailing separator is significant).
+pub fn node_key(p: &str) -> String {
+    let r = resolve(p);
+    let dir = dir_form(p) && !(r.names.is_empty() && r.ups == 0);
+    format!("{:?}|{}", r, dir)
+}
